@@ -119,6 +119,14 @@ class ExprGen:
             f = rng.choice(["math.exp", "np.exp", "math.floor", "math.log2", "np.log1p", "math.expm1"])
             self.feats.add(f"function_outside_tables:{f.split('.')[1]}")
             return f"{f}({a} / (1.0 + {a} * {a}))"
+        if r < 0.975:
+            # the remaining names of the exporter's function tables, and forms with more arguments than the table's entry has
+            f = rng.choice(["math.remainder({a}, 1.0 + {b} * {b})", "np.remainder({a}, 1.0 + {b} * {b})", "math.remainder({a}, 2.0)", "math.remainder(3.0 * {a}, 1.5)", "math.log(1.0 + {a} * {a}, 2.0)", "np.arctan({a})", "np.arcsinh({a})",
+                            "np.arcsin({a} / (1.0 + {a} * {a}))", "np.arccos({a} / (1.0 + {a} * {a}))", "np.arccosh(1.0 + {a} * {a})", "np.arctanh({a} / (1.0 + {a} * {a}))", "np.ceil({a})", "math.ceil({a})",
+                            "np.floor({a})", "np.tan({a} / (1.0 + {a} * {a}))", "math.cosh({a} / (1.0 + {a} * {a}))", "math.pow(1.0 + {a} * {a}, {b} / (1.0 + {b} * {b}))", "round({a})", "math.fabs({a})",
+                            "math.atan2({a}, {b})", "math.hypot({a}, {b})", "math.copysign({a}, {b})", "math.fmod({a}, 1.0 + {b} * {b})", "np.mod({a}, 1.0 + {b} * {b})"])
+            self.feats.add(f"other_table_names:{f.split('(')[0]}")
+            return f.format(a=a, b=b)
         f = rng.choice(["min", "max", "pow", "np.power", "np.minimum"])
         self.feats.add(f"nary:{f}")
         if f in ("pow", "np.power"):
